@@ -93,7 +93,7 @@ def _load_config(filepath=None, suppress_warnings=False):
                     if max_calc_step_size := calculator.get('max_calc_step_size'):
                         try:
                             _val = max_calc_step_size.get("value")
-                            _units = Unit[max_calc_step_size.get("units")]
+                            _units = _parse_unit(max_calc_step_size.get("units"))
                             set_global_max_calc_step_size(_units(_val))
                         except (KeyError, TypeError, ValueError):
                             if not suppress_warnings:
